@@ -837,6 +837,14 @@ func wrappers(res *core.Result, log *core.Log, lib wkbadapt.Lib, s *Scenario, e 
 	if !check("hex Decode", g, err) {
 		return false
 	}
+	// PostGIS prints hex in upper case
+	if p := core.Guard(func() { g, err = lib.HexDecode(strings.ToUpper(hx)) }); p != "" {
+		res.Fail("panic", "panic:hexdecode:"+core.PanicSite(p), "hex Decode panicked: %s", p)
+		return false
+	}
+	if !check("hex Decode (upper case)", g, err) {
+		return false
+	}
 	if !lib.HasSQL() {
 		return true
 	}
